@@ -376,6 +376,19 @@ for v_ in range(8 * SCALE):
     stray["data"] = bytes(R.randrange(256) for _ in range(len(stray["data"])))
     sk_["bundles"][j_] = dict(bb_, sigs=([stray] + bb_["sigs"]) if v_ % 2 else (bb_["sigs"] + [stray]))
     judge("skr", ksrxml.render_skr(sk_).encode(), f"stray-signature:skr-{v_}", None, expect="refused")
+# the tools' --debug switch changes what is logged, not what is accepted: valid and invalid documents loaded with debug logging on
+_long_validity = ksrxml.render_ksr(skrgen.honest_request("c13-long", NOW + D(days=3), 9, zs9, ksrxml.default_zsk_policy(max_overlap=D(days=16)), validity=D(days=25), sign=True))    # violates only the validity rule
+_short_overlap = ksrxml.render_ksr(skrgen.honest_request("c13-gap", NOW + D(days=3), 9, zs9, ksrxml.default_zsk_policy(), interval=D(days=21), sign=True))
+for label_, doc_, exp_ in (("valid", KSR9, "object"), ("wrong-domain", _bad_domain, "refused"), ("tampered-signature", _bad_sig, "refused"), ("wrong-key-tag", _bad_tag, "refused"),
+                           ("signature-validity-25-days-under-P21D", _long_validity, "refused"), ("bundles-without-overlap", _short_overlap, "refused")):
+    for dbg_ in (False, True):
+        judge("ksr", doc_.encode(), f"debug-logging:{label_}:{'debug' if dbg_ else 'plain'}", dict(POL9, debug=dbg_), expect=exp_)
+_skr_bad = SKR9.replace("<SignatureData>", "<SignatureData>AAAA", 1) if False else None
+for dbg_ in (False, True):
+    judge("skr", SKR9.encode(), f"debug-logging:valid-skr:{'debug' if dbg_ else 'plain'}", {"num_bundles": 9, "debug": dbg_}, expect="object")
+    _m9 = list(_re.finditer(r"<SignatureData>([^<]{20})", SKR9))[-1]
+    _skr_tam = SKR9[:_m9.start(1)] + ("A" if SKR9[_m9.start(1)] != "A" else "B") + SKR9[_m9.start(1) + 1:]
+    judge("skr", _skr_tam.encode(), f"debug-logging:skr-last-signature-tampered:{'debug' if dbg_ else 'plain'}", {"num_bundles": 9, "debug": dbg_}, expect="refused")
 # size cap: exactly 1 MiB is read, one byte more is refused before reading
 pad = lambda doc, n: (doc + " " * (n - len(doc.encode()))).encode()
 judge("ksr", pad(KSR9, 1024 * 1024), "size:exactly-1MiB", POL9, expect="object")
